@@ -45,6 +45,26 @@ def parseHexList (s : String) (size : Nat) : Option (Array ByteArray) :=
     if b.size ≠ size then none
     pure b
 
+/-- the randao mixes of a line: the whole vector (`hex,hex,…`) or, for long vectors, `index:hex` pairs of the slots
+around the current epoch -/
+def parseMixes (s : String) (ephv : Nat) : Option (Nat → ByteArray) :=
+  if s.contains ':' then do
+    let pairs ← (s.splitOn ",").mapM fun t =>
+      match t.splitOn ":" with
+      | [i, h] => do
+        let i ← i.toNat?
+        let b ← parseHex h
+        if b.size ≠ 32 then none
+        pure (i, b)
+      | _ => none
+    pure fun i => match pairs.find? (·.1 = i) with
+      | some (_, b) => b
+      | none => ByteArray.empty
+  else do
+    let a ← parseHexList s 32
+    if a.size ≠ ephv then none
+    pure fun i => a[i]!
+
 def digestOf (ps : List ByteArray) : String :=
   toHex (Sha256.hash (ps.foldl (· ++ ·) ByteArray.empty))
 
@@ -61,7 +81,7 @@ def chainLine (line : String) : String :=
   | "step" :: _cfgId :: nS :: _bal :: seedS :: _gmode :: _policy :: kS ::
       spe :: tcs :: mcs :: src :: ephv :: msl :: meb :: scs :: altairS :: periodS :: preS :: postS ::
       prevCur :: prevNext :: mixesS :: valsS :: spkCurS :: spkNextS :: [] =>
-    let parsed : Option (Cfg × Nat × Nat × Option Nat × Nat × Array ByteArray × Array CVal × Array ByteArray × Array ByteArray) := do
+    let parsed : Option (Cfg × Nat × Nat × Option Nat × Nat × (Nat → ByteArray) × Array CVal × Array ByteArray × Array ByteArray) := do
       let _ ← nS.toNat?
       let _ ← seedS.toInt?
       let _ ← kS.toNat?
@@ -77,17 +97,16 @@ def chainLine (line : String) : String :=
       let period ← periodS.toNat?
       let pre ← optNat preS
       let post ← postS.toNat?
-      let mixes ← parseHexList mixesS 32
+      let mixes ← parseMixes mixesS ephv
       let vals ← parseCVals valsS
       let c ← parseHexList spkCurS 48
       let n ← parseHexList spkNextS 48
-      if spe = 0 ∨ tcs = 0 ∨ ephv = 0 ∨ src > 255 ∨ msl ≥ ephv ∨ period = 0 ∨ mixes.size ≠ ephv then none
+      if spe = 0 ∨ tcs = 0 ∨ ephv = 0 ∨ src > 255 ∨ msl ≥ ephv ∨ period = 0 then none
       pure (⟨spe, tcs, mcs, src, ephv, msl, meb, scs⟩, altair, period, pre, post, mixes, vals, c, n)
     match parsed with
     | none => "bad-op"
-    | some (cfg, altair, period, pre, post, mixesA, cvals, spkCur, spkNext) =>
+    | some (cfg, altair, period, pre, post, mixes, cvals, spkCur, spkNext) =>
       let H := Sha256.hash
-      let mixes : Nat → ByteArray := fun i => mixesA[i]!
       let vals := cvals.map (·.v)
       let valsL := vals.toList
       let cur := post / cfg.SLOTS_PER_EPOCH
